@@ -59,13 +59,20 @@ def gen(rnd, tier):
     # pending when the event arrives that straddles the end of the last full read
     far_kinds = [("runes", [0x1F600]), ("key", 0, False), ("sgr", 35, 100, 20, False), ("x10", 32, 10, 10), ("paste", [104, 105]), ("altrune", 0xE9),
                  ("csi", [49, 50, 59, 49, 50, 48], [], 82)]
-    for bnd in ([4096] if tier == "quick" else [4096, 8192, 16384]):
+    for bnd in ([1280, 2560, 4096] if tier == "quick" else [512, 768, 1024, 1280, 1536, 2048, 2560, 3072, 4096, 5120, 8192, 16384]):
         for e in far_kinds:
             for off in ((-3, -2, -1) if tier == "quick" else range(-6, 1)):
+                if tier == "quick" and bnd != 4096 and off != -2:
+                    continue
                 pre = pad(rnd, bnd + off, 0)
                 evs = pre + [e, ("ctl", 13, False), ("runes", [122, 122])]
                 if all(D.valid_event(evs[i]) and D.clean(evs[i], [b for x in evs[i + 1:] for b in D.encode(x)]) for i in range(len(evs))):
-                    cases.append(D.stream_case(evs, tag="far-boundary:%s" % e[0]))
+                    c = D.stream_case(evs, tag="far-boundary:%s" % e[0])
+                    # everything is pending at once: a reader that asks for more than 256 bytes gets them
+                    c["greedy"] = True
+                    cases.append(c)
+                    if bnd == 4096:
+                        cases.append(D.stream_case(evs, tag="far-boundary:%s" % e[0]))
     # random long well-formed streams
     n = 90 if tier == "quick" else 4000
     for _ in range(n):
